@@ -606,6 +606,12 @@ func (h *H) matchStreams() {
 			k := vaxis.Key{Keycode: kc, Modifiers: vaxis.ModifierMask(m)}
 			h.emitStr(k, "every-special-key-x-masks")
 			h.emitSelf(k, "every-special-key-x-masks")
+			// every event type other than a release is bindable: repeat (kitty event 2), paste and motion (stamped by
+			// handleSequence), an unknown value; the event type rotates with key and mask, masks < 64 all covered
+			if m < 64 || r.Thorough {
+				k.EventType = []vaxis.EventType{vaxis.EventRepeat, vaxis.EventPaste, vaxis.EventMotion, 7}[(int(kc)+m)%4]
+				h.emitSelf(k, "every-special-key-x-masks-x-event-types")
+			}
 		}
 	}
 	for _, kc := range []rune{vaxis.KeyEnter, vaxis.KeyTab, vaxis.KeyEsc, vaxis.KeySpace, vaxis.KeyBackspace, 'a', 'z', 'A', '+', '-', '1', 'ф', '世', 0x08} {
@@ -616,6 +622,13 @@ func (h *H) matchStreams() {
 			}
 			h.emitStr(k, "aliases-and-chars-x-masks")
 			h.emitSelf(k, "aliases-and-chars-x-masks")
+			for _, ev := range []vaxis.EventType{vaxis.EventRepeat, vaxis.EventPaste, vaxis.EventMotion, vaxis.EventRelease, 7} {
+				if ev != vaxis.EventRepeat && ev != vaxis.EventPaste && m%5 != 0 {
+					continue
+				}
+				k.EventType = ev
+				h.emitSelf(k, "aliases-and-chars-x-masks-x-event-types")
+			}
 		}
 	}
 	for _, k := range []vaxis.Key{{Keycode: -1}, {Keycode: 0}, {Keycode: 1, Modifiers: 3}, {Keycode: 0x1A}, {Keycode: 0x1C}, {Keycode: 0x1F, Modifiers: 255},
